@@ -590,8 +590,8 @@ fn gen_type(rng: &mut Rng, depth: usize, dom: Dom) -> DataType {
             let fields: Vec<Field> = (0..n).map(|i| tfield(rng, &format!("u{i}"), depth - 1, dom)).collect();
             DataType::Union(UnionFields::try_new(ids, fields).unwrap(), if rng.bool() { UnionMode::Sparse } else { UnionMode::Dense })
         }
-        10 => DataType::ListView(Arc::new(tfield(rng, "item", depth - 1, dom))),
-        _ => DataType::LargeListView(Arc::new(tfield(rng, "item", depth - 1, dom))),
+        10 => DataType::ListView(Arc::new(tfield(rng, "item", depth - 1, below))),
+        _ => DataType::LargeListView(Arc::new(tfield(rng, "item", depth - 1, below))),
     }
 }
 
@@ -909,6 +909,7 @@ fn build_batches(c: &RtCase) -> (SchemaRef, Vec<RecordBatch>, String) {
         let un = DataType::Union(UnionFields::try_new(vec![0, 1], vec![Field::new("a", DataType::Int32, true), Field::new("b", DataType::Utf8, true)]).unwrap(), if rng.bool() { UnionMode::Sparse } else { UnionMode::Dense });
         let t = match c.dom.as_str() {
             "ree-v4" | "ree-empty" => ree,
+            "decoder-unaligned" => DataType::Union(UnionFields::try_new(vec![0, 1], vec![Field::new("a", DataType::Int32, true), Field::new("b", DataType::Utf8, true)]).unwrap(), UnionMode::Dense),
             _ => if rng.bool() { DataType::List(Arc::new(Field::new("item", un, true))) } else { DataType::FixedSizeList(Arc::new(Field::new("item", un, true)), 2) },
         };
         if fields.is_empty() {
@@ -1065,9 +1066,16 @@ fn run_rt(t: &[&str]) -> (String, Option<String>, String) {
             let mut d = StreamDecoder::new();
             let mut out = vec![];
             let mut pos = 0;
+            let dense = schema.fields().iter().any(|f| has_type(f.data_type(), &|t| matches!(t, DataType::Union(_, UnionMode::Dense))));
+            let whole = dense && c.dom != "decoder-unaligned";
             while pos < bytes.len() {
-                let n = (1 + rng.usize(200)).min(bytes.len() - pos);
-                let mut buf = Buffer::from_vec(bytes[pos..pos + n].to_vec());
+                let n = if whole { bytes.len() } else { (1 + rng.usize(200)).min(bytes.len() - pos) };
+                // chunks start at an odd address unless `whole` (64-byte aligned copy)
+                let mut buf = if whole { Buffer::from(&bytes[pos..pos + n]) } else {
+                    let mut v = vec![0u8; 1];
+                    v.extend_from_slice(&bytes[pos..pos + n]);
+                    Buffer::from_vec(v).slice(1)
+                };
                 pos += n;
                 while !buf.is_empty() {
                     match d.decode(&mut buf)? {
@@ -1433,9 +1441,15 @@ fn gen_case(rng: &mut Rng) -> (String, String) {
             )
         }
         _ => {
-            let writer = *rng.pick(&["file", "stream", "enc"]);
-            let reader = if writer == "file" { "file" } else { *rng.pick(&["stream", "decoder"]) };
-            let dom = if rng.chance(1, 12) { *rng.pick(&["ree-v4", "ree-empty", "nested-union"]) } else { "std" };
+            let dom_pre = 0;
+            let _ = dom_pre;
+            let mut writer = *rng.pick(&["file", "stream", "enc"]);
+            let mut reader = if writer == "file" { "file" } else { *rng.pick(&["stream", "decoder"]) };
+            let dom = if rng.chance(1, 10) { *rng.pick(&["ree-v4", "ree-empty", "nested-union", "decoder-unaligned"]) } else { "std" };
+            if dom == "decoder-unaligned" {
+                writer = "stream";
+                reader = "decoder";
+            }
             let ver = if dom == "ree-v4" || (dom == "std" && rng.chance(1, 4)) { 4 } else { 5 };
             let legacy = ver == 4 && rng.bool();
             let codec = if ver == 5 { *rng.pick(&["none", "none", "lz4", "zstd"]) } else { "none" };
